@@ -3,6 +3,7 @@
   Model: PV/Model/Rekey.lean (thresholds are parameters: every theorem holds for every threshold value).
 -/
 import PV.Model.Rekey
+import PV.Generated.C11
 namespace PV.Props.C10
 open PV.Rekey
 
@@ -297,6 +298,15 @@ example : (crun { comp := .zlib } [.newkeysOut, .newkeysIn, .auth, .newkeysOut, 
   decide
 example : let s := crun { comp := .delayed } [.newkeysOut, .newkeysIn, .auth, .newkeysIn, .newkeysOut]
     s.installsOut = 2 ∧ s.installsIn = 2 ∧ s.compOutGen = some 2 ∧ s.compInGen = some 2 := by decide
+
+/-- **A re-exchange we start ourselves closes the send gate under its lock** (AST of transport.py, read on every
+run): every `clear_to_send.clear()` — in `_send_kex_init` (threshold crossing, `renegotiate_keys()`) and in
+`_negotiate_keys` — is inside a `clear_to_send_lock` region, and `_send_kex_init` clears before it writes KEXINIT.
+`_send_user_message` holds that lock from its `is_set()` test to its write, so our KEXINIT waits for an application
+packet that has passed the gate; the step-level proof for every interleaving is `PV.Props.C11.send_gate_window_clean`,
+the variant without the lock has the witness `send_gate_unlocked_clear_witness`. -/
+theorem self_initiated_rekey_closes_gate_under_lock :
+    Generated.C11.allClearsUnderLock = true ∧ Generated.C11.kexInitClearsBeforeWrite = true := by decide
 
 /-! ## non-vacuity: a scaled-down packetizer through two complete rekeys and an ignoring peer -/
 
